@@ -7,7 +7,7 @@
    stated in full and proved in stages (null struct; canonicalStructSize for every struct; end to
    end for all-default structs); the heap-level induction is open and covered by the run. *)
 From CV Require Import Value.ValueEq Value.CanonSpec Value.CanonProofs Value.CanonProofs2 Value.CanonProofs3
-                       Value.EqualM Value.CanonM Value.EqualProofs Value.CanonMProofs Value.CanonMStruct Value.CanonMWords Value.Den.
+                       Value.EqualM Value.CanonM Value.EqualProofs Value.CanonMProofs Value.CanonMStruct Value.CanonMWords Value.CanonMData Value.Den.
 From CV Require Import Core.ReaderFacts Core.SafetyProofs Core.ArithFacts.
 Open Scope Z_scope.
 
@@ -95,6 +95,18 @@ Theorem C18_canon_m_default_struct_partial : forall c fx fuel m rl s v,
   canonicalize c fx (S fuel) m rl s = (KOk empty_struct_msg, rl) /\ canon v = Some empty_struct_msg.
 Proof. exact canon_m_default_struct_partial. Qed.
 Print Assumptions C18_canon_m_default_struct_partial.
+
+(* stage (a): every struct all of whose pointers read null (arbitrary data, any size up to
+   65535 words): Canonicalize returns root pointer + data truncated of trailing zero words =
+   the specification's canonical form of the denoted value *)
+Theorem C18_canon_m_data_struct : forall c fx fuel m rl s v,
+  cfg_strict c = true -> all_cfixed fx -> msg_ok m -> wf_ptr m s ->
+  p_valid s = true -> p_kind s = KStruct -> DataSize (p_size s) mod 8 = 0 ->
+  den true m 0 [] s v ->
+  (exists ws vs, v = VStruct ws vs /\ forallb is_null vs = true) ->
+  exists bs, canonicalize c fx (S fuel) m rl s = (KOk bs, rl) /\ canon v = Some bs.
+Proof. exact canon_m_data_struct. Qed.
+Print Assumptions C18_canon_m_data_struct.
 
 (* groundwork for the heap-level induction: the pointer words the builder model writes (near
    branch of place, tag of NewCompositeList) are the specification's pointer words *)
